@@ -132,6 +132,10 @@ def chains(tier, rng):
         progs.append(Program('(p for p in P)', X, 'string', 'filters', chain={'filters': [f1, f2], 'final': ('list',)}))
         progs.append(Program('(p for p in P if p.g is not None)', X, 'string', 'filters', chain={'filters': [f1], 'order': [('p.id', False)], 'final': ('slice', 0, 1)}))
         progs.append(Program('(p for p in P)', X, 'string', 'filters', chain={'filters': [f2, f1], 'final': ('aggr', 'COUNT')}))
+    # keyword filters, chained (every call adds parameters of its own)
+    for kws in ([{'a': 1}], [{'a': 1}, {'f': True}], [{'a': 1}, {'b': 2}, {'f': False}], [{'b': None}, {'a': 2}], [{'a': 1, 'b': 2}, {'s': 'a'}, {'f': True}, {'h': None}]):
+        progs.append(Program('(p for p in P)', {}, 'string', 'kwfilters', chain={'kwfilters': kws, 'final': ('list',)}))
+        progs.append(Program('(p for p in P if p.a > x)', X, 'string', 'kwfilters', chain={'kwfilters': kws, 'filters': ['lambda p: p.u is None'], 'final': ('aggr', 'COUNT')}))
     return progs
 
 
